@@ -1528,6 +1528,15 @@ class Tuple(Generic, ValueSpecBase):
       if self._max_size is None:
         self._max_size = base.max_size
       self.elements[0].extend(base.elements[0])
+      if self._min_size == self._max_size:
+        # The inherited bounds make this a fixed-length tuple, which has one
+        # field per position.
+        element_value = self._elements[0].value
+        self._elements = [
+            Field(key_specs.TupleKey(i), element_value,
+                  f'Field of tuple element at {i}')
+            for i in range(self._min_size)
+        ]
 
   def _is_compatible(self, other: 'Tuple') -> bool:
     """Tuple specific compatibility check."""
